@@ -187,7 +187,7 @@ impl Prop for C11 {
         "C11"
     }
     fn cases(&self) -> (u64, u64) {
-        (12_000, 300_000)
+        (40_000, 300_000)
     }
     fn rule(&self) -> &'static str {
         "choice bytes -> broad definition (with completers) compiled into the real `subject` \
